@@ -21,6 +21,7 @@ ASSUMPTIONS = ['amounts are exact reals']
 LAYOUTS = {
     'L1': {'M1': [(3, 2), (3, 20), (5, 7)], 'M2': [(4, 9)]},
     'L2': {'M1': [(1, 5), (2, 5)], 'M2': [(1, 6), (1, 7)]},
+    'L3': {'M1': [(2, 3), (2, 9)], 'M2': [(2, 4), (3, 4)]},      # with m2tags 'mixed': only M2's first payment is tagged transfer
 }
 
 VIEWS = {
@@ -48,6 +49,12 @@ filter: months >= 9003
 filter: total > 9001
 ''',
     'payments-a': '''
+peak = max(sum(by("month")))
+npay = count(payments)
+
+[PeakVar]
+filter: peak > 9001
+
 [Peak]
 filter: max(sum(by("month"))) > 9001
 
@@ -81,7 +88,8 @@ def _txns(layout, amounts, m2tags):
     for m, dates in LAYOUTS[layout].items():
         for (mo, d) in dates:
             out.append({'merchant': m, 'category': 'Food' if m == 'M1' else 'Bills', 'subcategory': 'Grocery' if m == 'M1' else 'Power',
-                        'date': datetime(2024, mo, d), 'amount': amounts[k], 'tags': ['recurring'] if m == 'M1' else list(m2tags),
+                        'date': datetime(2024, mo, d), 'amount': amounts[k],
+                        'tags': ['recurring'] if m == 'M1' else ((['transfer'] if (mo, d) == dates[0] else []) if list(m2tags) == ['mixed'] else list(m2tags)),
                         'description': m, 'source': 'S'})
             k += 1
     return out
@@ -98,7 +106,7 @@ def _facts(layout, amounts, m2tags):
             k += 1
             pays.append(a)
             by_month[mo] = by_month.get(mo, 0) + a
-        tags = ['recurring'] if m == 'M1' else list(m2tags)
+        tags = ['recurring'] if m == 'M1' else (['transfer'] if list(m2tags) == ['mixed'] else list(m2tags))      # merchant tags = union over its payments
         facts[m] = {'payments': pays, 'total': sum(pays), 'months': len(by_month), 'by_month': by_month,
                     'category': 'Food' if m == 'M1' else 'Bills', 'subcategory': 'Grocery' if m == 'M1' else 'Power', 'tags': [t.lower() for t in tags]}
     all_months = set()
@@ -118,7 +126,7 @@ def _expected(vname, f, period_months, s1, s2, n1, n2, n3):
         return {'Broken': False, 'Frequent': f['months'] >= n3, 'Large': tot > n1}
     if vname == 'payments-a':
         peak = max(f['by_month'].values())
-        return {'Peak': peak > n1, 'AvgCount': (sum(pays) / len(pays) >= n2) and len(pays) == n3}
+        return {'PeakVar': peak > n1, 'Peak': peak > n1, 'AvgCount': (sum(pays) / len(pays) >= n2) and len(pays) == n3}
     if vname == 'payments-b':
         return {'Yearly': min(pays) > n2, 'Period': f['months'] >= period_months - n3}
     if vname == 'text':
@@ -263,7 +271,7 @@ def obligations(tier, seed):
     obs = []
     to = 130 if q else 1200
     combos = [('totals-a', 'L1', ['utilities']), ('totals-b', 'L2', ['Income']), ('totals-b', 'L1', []), ('payments-a', 'L1', ['utilities']), ('payments-a', 'L2', []),
-              ('payments-b', 'L1', ['x']), ('payments-b', 'L2', ['investment']), ('text', 'L1', ['Transfer', 'x']), ('text', 'L2', ['recurring'])]
+              ('totals-a', 'L3', ['mixed']), ('payments-a', 'L3', ['mixed']), ('payments-b', 'L1', ['x']), ('payments-b', 'L2', ['investment']), ('text', 'L1', ['Transfer', 'x']), ('text', 'L2', ['recurring'])]
     if not q:
         combos += [(v, l, t) for v in VIEWS for l in LAYOUTS for t in (['investment'], ['Recurring', 'misc'])]
     for (v, l, t) in combos:
